@@ -18,6 +18,7 @@ import transition2coq  # noqa: E402
 import loops2coq  # noqa: E402
 import moments2coq  # noqa: E402
 import configs2coq  # noqa: E402
+import cache2coq  # noqa: E402
 
 # one entry per translated source file: translator module, source, committed generated file, equivalence proofs
 TIES = {
@@ -25,6 +26,7 @@ TIES = {
     'rewards': dict(mod=rewards2coq, src='rewards.py', gen='RewardsGen', equiv='GenRewardsEquiv'),
     'transition': dict(mod=transition2coq, src='state_space.py', gen='TransitionGen', equiv='GenTransitionEquiv'),
     'loops': dict(mod=loops2coq, src='distributions.py', gen='LoopsGen', equiv='GenLoopsEquiv'),
+    'cache': dict(mod=cache2coq, src='state_space.py', gen='CacheGen', equiv='GenCacheEquiv'),
     'configs': dict(mod=configs2coq, src='', gen='ConfigsGen', equiv='GenConfigsEquiv', src_is_dir=True),
     'moments': dict(mod=moments2coq, src='distributions.py', gen='MomentsGen', equiv='GenMomentsEquiv'),
 }
@@ -109,7 +111,11 @@ def run(res_proof: dict, pid: str = 'C14', tie: str = 'coalescent_models') -> No
             res_proof['errors'].append(f'translate step: proofs/{EQ}.v does not import gen.{GEN} as expected')
             res_proof['discharged'] = 0
             return
-        eq2 = eq2.replace('From PG Require Import base.Ops', f'From PGS Require Import {GEN}.\nFrom PG Require Import base.Ops', 1)
+        eq2, n_ins = re.subn(r'^From PG Require Import', f'From PGS Require Import {GEN}.\nFrom PG Require Import', eq2, count=1, flags=re.M)
+        if n_ins != 1:
+            res_proof['errors'].append(f'translate step: proofs/{EQ}.v has no `From PG Require Import` line to redirect')
+            res_proof['discharged'] = 0
+            return
         with open(os.path.join(d, EQ + '.v'), 'w') as fh:
             fh.write(eq2)
         base = ['coqc', '-Q', C.THEORIES, 'PG', '-Q', d, 'PGS', '-w', '-notation-overridden,-deprecated-hint-without-locality']
